@@ -294,6 +294,41 @@ def _ints_and_verify(c, prog, ops):
     c.inst("R5.push-slice-resets-memo", "push_slice clears the last-opcode memo", any("None" in show(e["value"]) for e in resets), "assignments %s" % [show(e["value"]) for e in resets], fs.where(), fs.path)
 
 
+def _views(c, prog):
+    """R7: the accessors every template predicate, builder and address conversion reads a script through are the identity on
+    the stored bytes, and a pushed opcode is appended as its own code byte and remembered as the last opcode."""
+    from ..analysis import effects
+    S = "script::"
+    table = {
+        S + "Script::len": "core::slice::len(arg1.0)",
+        S + "Script::as_bytes": "arg1.0",
+        S + "Script::is_empty": "core::slice::is_empty(arg1.0)",
+        S + "Script::into_bytes": "std::slice::into_vec(arg1.0)",
+        S + "Script::to_bytes": "std::slice::into_vec(arg1.0)",
+        S + "Builder::into_script": "script::Script::Script{std::vec::Vec::into_boxed_slice(arg1.0)}",
+        "<script::Script as std::convert::From<std::vec::Vec<u8>>>::from": "script::Script::Script{std::vec::Vec::into_boxed_slice(arg1)}",
+        "opcodes::All::into_u8": "arg1.code",
+        "<opcodes::All as std::convert::From<u8>>::from": "opcodes::All::All{arg1}",
+        S + "Builder::push_scriptint": "script::Builder::push_slice(arg1, script::build_scriptint(arg2))",
+    }
+    for fnp, want in table.items():
+        f = prog.fn(fnp)
+        t = show(Prov(f.body).local(0), -30)
+        c.inst("R7.byte-views", fnp.split("::", 1)[1] if fnp.startswith("script::") else fnp, t == want, "returns %s" % t[:200], f.where(), fnp)
+    for fnp, want in ((S + "Script::new", r"^script::Script::Script\{std::vec::Vec::into_boxed_slice\(std::vec::Vec::new\(\)(@#\d+)?\)\}$"),
+                      (S + "Builder::new", r"^script::Builder::Builder\{std::vec::Vec::new\(\)(@#\d+)?, std::option::Option::None\{\}\}$")):
+        f = prog.fn(fnp)
+        t = show(Prov(f.body).local(0), -30)
+        c.inst("R7.byte-views", fnp.split("::", 1)[1], re.match(want, t) is not None, "returns %s" % t[:200], f.where(), fnp)
+    f = prog.fn(S + "Builder::push_opcode")
+    ef = [(e["kind"], e["callee"], show(e["target"], -20), show(e["value"], -20) if e.get("value") is not None else [show(a, -20) for a in e.get("args", [])])
+          for e in effects(f.body) if e["kind"] in ("mutarg", "assign")]
+    c.inst("R7.byte-views", "Builder::push_opcode appends the code byte and records the opcode",
+           ef == [("mutarg", "std::vec::Vec::<T, A>::push", "arg1.0", ["arg1.0", "opcodes::All::into_u8(arg2)"]), ("assign", None, "arg1.1", "std::option::Option::Some{arg2}")]
+           and show(Prov(f.body).local(0), -9) == "arg1", "effects %s" % ef, f.where(), f.path)
+    c.floor("R7.byte-views", 13)
+
+
 def run(c, prog, ctx):
     c.explanation = (
         "Static decision of the structural clauses of C16: (R1) the exact truth table of every template predicate over its own "
@@ -311,6 +346,7 @@ def run(c, prog, ctx):
     _shapes(c, prog, ops)
     _thresholds(c, prog, ops)
     _ints_and_verify(c, prog, ops)
+    _views(c, prog)
     # last clause of the property — "its text form parses back to the same address" — is C06's subject: its rules (payload
     # layouts, program-length and padding tables of the blech32 reader, prefix matching, variant by version) are evaluated here too
     if not ctx.get("no_deps"):
